@@ -2,6 +2,7 @@ CONSTANTS
   NSec = 40
   NVec = 20000
   NCand = 5000
+  NRtp = 3240
 INIT Init
 NEXT Next
 INVARIANTS Emit
